@@ -62,6 +62,30 @@ def _adv_px(config, image_data):
     return round(max(config.width, image_data.size[0] * em(config) / image_data.size[1]) * image_data.size[1] / em(config))
 
 
+_CFG_SBIX = Record("nanoemoji.config.FontConfig", color_format=Const("sbix"), axes=Const(()), masters=Const(()), source_names=Const(()))
+
+
+@contract("nanoemoji.bitmap_tables.BitmapMetrics.create", props=["C14", "C20"])
+class metrics_create_sbix:
+    """sbix has 16-bit ppem and offsets and does not use y_offset: CBDT's 8-bit limits must not
+    reject an sbix build (C14 allows rejecting only what the format cannot represent; C20:
+    bitmap_resolution is the strike size)"""
+
+    args = {"cls": ClassOf("nanoemoji.bitmap_tables.BitmapMetrics"), "config": _CFG_SBIX, "image_data": PNG, "ppem": Int}
+    requires = [
+        lambda config, image_data, ppem: _sane(config) and image_data.size[0] > 0 and image_data.size[1] > 0 and ppem == round(config.upem * image_data.size[1] / em(config))
+    ]
+    # no may_raise: the function returns for every sane configuration and bitmap
+    ensures = {
+        "centred-in-advance": lambda config, image_data, result: (
+            abs(result.x_offset - (_adv_px(config, image_data) - image_data.size[0]) / 2) <= 1 / 2 or result.x_offset == 127
+        ),
+        "line-height": lambda config, ppem, result: result.line_height == round(em(config) * ppem / config.upem),
+        "line-ascent": lambda config, ppem, result: result.line_ascent == round(config.ascender * ppem / config.upem),
+    }
+    native = False
+
+
 @contract("nanoemoji.bitmap_tables.BitmapMetrics.create", props=["C14"])
 class metrics_create:
     args = {"cls": ClassOf("nanoemoji.bitmap_tables.BitmapMetrics"), "config": CFG, "image_data": PNG, "ppem": Int}
@@ -69,8 +93,9 @@ class metrics_create:
         lambda config, image_data, ppem: _sane(config)
         and image_data.size[0] > 0
         and image_data.size[1] > 0
-        # the driver renders every bitmap at height bitmap_resolution (resvg -h)
-        and image_data.size[1] == config.bitmap_resolution
+        # (NOT assumed: that the bitmap's height equals config.bitmap_resolution -- nanoemoji's
+        # own driver renders at that height, but maximum_color --bitmap_resolution R renders
+        # at R while the configuration it writes for the CBDT step keeps the default)
         # ppem as the callers compute it
         and ppem == round(config.upem * image_data.size[1] / em(config))
     ]
@@ -78,7 +103,7 @@ class metrics_create:
     may_raise = ("AssertionError",)  # unrepresentable metric combinations are rejected
     chain = True  # clauses are proved in order; earlier ones may be used by later ones
     ensures = {
-        "representable": lambda config, result: (result.y_offset in INT8) and 0 <= config.bitmap_resolution and config.bitmap_resolution <= 255,
+        "representable": lambda config, result: config.color_format == "sbix" or ((result.y_offset in INT8) and 0 <= config.bitmap_resolution and config.bitmap_resolution <= 255),
         # --- horizontal: the bitmap [x_offset, x_offset + w] is centred in [0, advance]
         "centred-in-advance": lambda config, image_data, result: (
             abs(result.x_offset - (_adv_px(config, image_data) - image_data.size[0]) / 2) <= 1 / 2
@@ -193,6 +218,10 @@ _CGB = Obj(glyph_id=Int, bitmap=PNG, bitmap_filename=Str)
 _BMC = "nanoemoji.bitmap_tables.BitmapMetrics.create"
 
 
+def _strike_ppem(ttfont):
+    return [k for k in ttfont["sbix"].strikes][0]
+
+
 def _sbix_glyph(ttfont, i):
     # (the i-th glyph record in insertion order; its key is checked through glyphName)
     return [g for g in [st for st in ttfont["sbix"].strikes.values()][0].glyphs.values()][i]
@@ -209,8 +238,6 @@ class sbix_one_ppem:
     requires = [
         lambda config, ttfont, color_glyphs: _sane(config)
         and all(c.bitmap.size[0] > 0 and c.bitmap.size[1] > 0 and map_has(ttfont.names, c.glyph_id) for c in color_glyphs)
-        # the driver renders at bitmap_resolution (resvg -h); only the first is assumed to be
-        and color_glyphs[0].bitmap.size[1] == config.bitmap_resolution
         # distinct glyphs have distinct names
         and (len(color_glyphs) < 2 or ttfont.names[color_glyphs[0].glyph_id] != ttfont.names[color_glyphs[1].glyph_id])
     ]
@@ -232,9 +259,15 @@ class sbix_one_ppem:
         "each-glyph-holds-its-image": lambda ttfont, color_glyphs: all(_sbix_glyph(ttfont, i).imageData.size == color_glyphs[i].bitmap.size for i in range(len(color_glyphs))),
         "each-glyph-record-names-its-glyph": lambda ttfont, color_glyphs: all(_sbix_glyph(ttfont, i).glyphName == ttfont.names[color_glyphs[i].glyph_id] for i in range(len(color_glyphs))),
         "each-glyph-at-its-x-offset": lambda ttfont, color_glyphs, calls: all(_sbix_glyph(ttfont, i).originOffsetX == calls[_BMC][i].result.x_offset for i in range(len(color_glyphs))),
-        # originOffsetY: the bitmap's bottom edge below the baseline = -(line_height - line_ascent)
-        "each-glyph-at-its-y-offset": lambda ttfont, color_glyphs, calls: all(
-            _sbix_glyph(ttfont, i).originOffsetY == calls[_BMC][i].result.line_ascent - calls[_BMC][i].result.line_height for i in range(len(color_glyphs))
+        # originOffsetY is the bitmap's bottom edge: bottom and top (bottom + height) coincide
+        # with the em box [descender, ascender] scaled to the strike's ppem, within one pixel
+        "each-glyph-on-the-em-box-vertically": lambda config, ttfont, color_glyphs: implies(
+            em(config) <= 2 * config.upem,
+            all(
+                abs(_sbix_glyph(ttfont, i).originOffsetY - config.descender * _strike_ppem(ttfont) / config.upem) <= 1
+                and abs(_sbix_glyph(ttfont, i).originOffsetY + color_glyphs[i].bitmap.size[1] - config.ascender * _strike_ppem(ttfont) / config.upem) <= 1
+                for i in range(len(color_glyphs))
+            ),
         ),
     }
     native = False
@@ -311,7 +344,6 @@ class cbdt_strike_one_ppem:
         and all(c.bitmap.size[0] > 0 and c.bitmap.size[1] > 0 and map_has(ttfont.names, c.glyph_id) for c in color_glyphs)
         and all(c.bitmap.n >= 0 for c in color_glyphs)
         and all(color_glyphs[i + 1].glyph_id == color_glyphs[i].glyph_id + 1 for i in range(0, len(color_glyphs) - 1))
-        and color_glyphs[0].bitmap.size[1] == config.bitmap_resolution
         and (len(color_glyphs) < 2 or ttfont.names[color_glyphs[0].glyph_id] != ttfont.names[color_glyphs[1].glyph_id])
     ]
     raises_if = {"AssertionError": lambda color_glyphs: any(c.bitmap.size[1] != color_glyphs[0].bitmap.size[1] for c in color_glyphs)}
